@@ -1,6 +1,7 @@
 package core
 
 import (
+	"bytes"
 	"context"
 	"encoding/json"
 	"fmt"
@@ -386,6 +387,139 @@ func TestC02WriteQueue(t *testing.T) {
 		}
 		if fails := runC02Queue(c, protos); len(fails) > 0 {
 			t.Fatalf("C02 violated (%d findings), first: %s\ncase: %+v", len(fails), fails[0], c)
+		}
+	})
+}
+
+// C02 over the HTTP-style protocol: a reply frame that is well framed (status line, headers,
+// Content-Length) but whose payload is not what its status line promises still completes the
+// call it is addressed to.
+func TestC02HTTPReplies(t *testing.T) {
+	rec := vt.NewRec(t, "C02", "http-replies", "a client session speaking the HTTP-style protocol against a scripted remote; 1-4 outstanding calls; per call the remote answers with one of {200 reply, 299 reply with a proper status document, 299 reply whose payload (same length) is not a status document: HTML / truncated JSON / wrong-typed JSON, 200 reply with an undecodable body}; oracle: once the replies were consumed every call is done or the session has ended (a consumed reply, a healthy session and a pending call = a hang); then the link is cut and every call's Done fires (20 s bound + goroutine dump), exactly one delivery on the completion channel, a call answered with a broken 299 document is not OK, Close returns; non-trivial = at least one broken reply; distinct by case")
+	proto := vt.HTTPProto()
+	rapid.Check(t, func(t *rapid.T) {
+		vt.Init()
+		newLib()
+		n := rapid.IntRange(1, 4).Draw(t, "calls")
+		classes := make([]string, n)
+		nt := false
+		for i := range classes {
+			classes[i] = rapid.SampledFrom([]string{"ok", "status", "html", "html", "truncjson", "wrongtype", "badbody"}).Draw(t, "class")
+			if classes[i] != "ok" && classes[i] != "status" {
+				nt = true
+			}
+		}
+		rec.Case(fmt.Sprintf("%v", classes), nt, fmt.Sprintf("calls=%d", n))
+		if rec.WantSample() && nt {
+			rec.Sample(classes)
+		}
+		w := vt.NewWorld()
+		defer w.Close()
+		cli := w.Peer(erpc.PeerConfig{})
+		pair := vt.NewPair()
+		sess, stat := cli.ServeConn(pair.A, proto.Fn)
+		if !stat.OK() {
+			t.Fatalf("ServeConn: %v", stat)
+		}
+		raw := vt.NewRawPeer(pair, pair.B, proto.Fn)
+		defer raw.Close()
+		pack := func(m vt.Msg) []byte {
+			wrw := &vt.RW{}
+			if err := proto.Fn(wrw).Pack(m.Build()); err != nil {
+				panic("harness pack: " + err.Error())
+			}
+			return wrw.Written()
+		}
+		shared := make(chan erpc.CallCmd, n+2)
+		cmds := make([]erpc.CallCmd, n)
+		for i := range cmds {
+			cmds[i] = sess.AsyncCall("/lib_do", &LibArg{Rid: fmt.Sprintf("h%d", i)}, new(LibRes), shared, erpc.WithBodyCodec('j'))
+			if !raw.WaitFrames(i + 1) {
+				t.Fatalf("%s", vt.Hang("the CALL frame on the wire"))
+			}
+		}
+		frames := raw.Frames()
+		for i, cl := range classes {
+			seq := frames[i].Seq
+			var f []byte
+			switch cl {
+			case "ok":
+				f = pack(vt.Msg{Seq: seq, Mtype: erpc.TypeReply, Codec: 'j', Body: []byte(`{"Rid":"r","Val":"v"}`)})
+			case "badbody":
+				f = pack(vt.Msg{Seq: seq, Mtype: erpc.TypeReply, Codec: 'j', Body: []byte(`{"Rid":[1,`)})
+			default:
+				f = pack(vt.Msg{Seq: seq, Mtype: erpc.TypeReply, HasStatus: true, Code: 4242, StatMsg: "handler said no", Cause: "because", HasCause: true})
+				if cl != "status" {
+					// keep the framing (status line, headers, Content-Length), replace the document
+					k := bytes.Index(f, []byte("\r\n\r\n"))
+					if k < 0 {
+						t.Fatalf("harness: no header/body separator in %q", f)
+					}
+					doc := f[k+4:]
+					var repl []byte
+					switch cl {
+					case "html":
+						repl = bytes.Repeat([]byte("<html>502 bad gateway</html> "), len(doc)/20+1)[:len(doc)]
+					case "truncjson":
+						repl = append([]byte(nil), doc...)
+						for j := len(repl) / 2; j < len(repl); j++ {
+							repl[j] = ' '
+						}
+					default: // wrongtype
+						repl = append([]byte(`{"code":"x","msg":7}`), bytes.Repeat([]byte(" "), len(doc))...)[:len(doc)]
+					}
+					f = append(append([]byte(nil), f[:k+4]...), repl...)
+				}
+			}
+			raw.SendBytes(f)
+		}
+		// every reply frame has been taken off the wire: from now on each call is either
+		// completed by its reply, or the session ends (which completes it too) - a consumed
+		// reply, a healthy session and a call still pending is a call that hangs
+		vt.WaitUntilFor(2*time.Second, func() bool { return pair.Delivered(vt.BtoA) == pair.Written(vt.BtoA) })
+		for i, cmd := range cmds {
+			cmd := cmd
+			ok := vt.WaitUntilFor(vt.LivenessBound, func() bool {
+				select {
+				case <-cmd.Done():
+					return true
+				default:
+				}
+				return !sess.Health()
+			})
+			if !ok {
+				t.Fatalf("C02 violated over the HTTP protocol: the reply to call %d (class %q; all classes %v) was consumed, the session is healthy, and the call is still pending after %v; goroutines:\n%s", i, classes[i], classes, vt.LivenessBound, vt.GoroutineDump())
+			}
+		}
+		pair.Cut() // whatever is still outstanding gets its terminal event
+		for i, cmd := range cmds {
+			if !vt.WaitClosed(cmd.Done()) {
+				t.Fatalf("C02 violated over the HTTP protocol: call %d (answered with class %q; all classes %v): %s", i, classes[i], classes, vt.Hang("Done() after its reply frame was delivered and the connection was lost"))
+			}
+			if cmd.StatusOK() && classes[i] != "ok" {
+				t.Fatalf("C02 violated over the HTTP protocol: call %d was answered with class %q and completed OK", i, classes[i])
+			}
+		}
+		closed := make(chan struct{})
+		go func() { sess.Close(); close(closed) }()
+		if !vt.WaitClosed(closed) {
+			t.Fatalf("%s", vt.Hang("return of Session.Close"))
+		}
+		time.Sleep(200 * time.Microsecond)
+		count := map[erpc.CallCmd]int{}
+		for {
+			select {
+			case c := <-shared:
+				count[c]++
+				continue
+			default:
+			}
+			break
+		}
+		for i, cmd := range cmds {
+			if count[cmd] != 1 {
+				t.Fatalf("C02 violated over the HTTP protocol: call %d (class %q) was delivered %d times to its completion channel", i, classes[i], count[cmd])
+			}
 		}
 	})
 }
